@@ -451,6 +451,59 @@ Proof.
   split; [reflexivity|]. split; [vm_compute; reflexivity|]. vm_compute. discriminate.
 Qed.
 
+(* ---- the registry: with pairwise distinct configured addresses every started server is
+        reached by Shutdown, so clause 1 holds for ALL servers that were started ---- *)
+Lemma addr_eqb_eq a b : addr_eqb a b = true <-> a = b.
+Proof.
+  destruct a as [a1 a2], b as [b1 b2]. unfold addr_eqb. cbn [fst snd]. rewrite andb_true_iff, !N.eqb_eq.
+  split; [intros [-> ->]; reflexivity|intros H; inversion H; auto].
+Qed.
+
+Lemma not_overwritten a later :
+  ~ In a (map fst later) -> overwritten key_configured a later = false.
+Proof.
+  intros H. unfold overwritten. destruct (existsb _ later) eqn:E; auto. exfalso.
+  apply existsb_exists in E. destruct E as [q [Hq E]]. unfold key_configured in E.
+  apply addr_eqb_eq in E. apply H. rewrite <- E. apply in_map. exact Hq.
+Qed.
+
+Theorem all_started_are_reached gp wait started :
+  NoDup (map fst started) ->
+  run_started gp key_configured wait started = map (fun p => Some (run_server gp wait (snd p))) started.
+Proof.
+  induction started as [|[a s] later IH]; cbn [run_started map fst snd]; intros H; [reflexivity|].
+  inversion H as [|x xs Hn Hd]; subst. rewrite (not_overwritten a later Hn), (IH Hd). reflexivity.
+Qed.
+
+Theorem listeners_closed_first_all_started wait started r t :
+  NoDup (map fst started) ->
+  In r (run_started grpc_prog key_configured wait started) -> started_accepts r t = false.
+Proof.
+  intros Hd H. rewrite (all_started_are_reached grpc_prog wait started Hd) in H.
+  apply in_map_iff in H. destruct H as [p [<- _]]. cbn [started_accepts].
+  apply server_never_accepts. left; reflexivity.
+Qed.
+
+Theorem started_ret_is_shutdown_ret wait started :
+  NoDup (map fst started) ->
+  started_ret (run_started grpc_prog key_configured wait started) = g_ret (shutdown wait (map snd started)).
+Proof.
+  intros Hd. rewrite (all_started_are_reached grpc_prog wait started Hd).
+  unfold started_ret, shutdown, shutdown_with. cbn [g_ret]. rewrite !map_map. reflexivity.
+Qed.
+
+(* a registry keyed by the port alone (NOT the code) loses a server of a multi-homed
+   configuration: same port on two local addresses; its listener accepts for ever *)
+Theorem port_only_key_refuted :
+  exists started, NoDup (map fst started) /\
+    exists r, In r (run_started grpc_prog key_port_only 300 started) /\ forall t, started_accepts r t = true.
+Proof.
+  exists [((2130706433, 9000), Single (mkleaf KTcp [Fin 90])); ((2130706434, 9000), Single (mkleaf KTcp [Fin 90]))].
+  split.
+  - constructor; [cbn; intros [H|[]]; discriminate|]. constructor; [intros []|constructor].
+  - exists None. split; [vm_compute; left; reflexivity|]. reflexivity.
+Qed.
+
 (* ---- non-vacuity ---- *)
 Definition example_mix : list server :=
   [Single (mkleaf KHttp [Fin 90; Fin 600; Inf]);
